@@ -254,7 +254,8 @@ def rule_d5(repo):
     overlaps other instances (power :: real => 'b => real overlaps real => nat => real)."""
     res = RuleResult('C11.D5', 'an instance of an overloaded constant is accepted only after every component of the type instantiation was tested to be a type constructor', floor=1)
     THEORY = 'kernel/theory.py'
-    f = repo.func(THEORY, 'Theory.add_term_sig')
+    from ..inline import inlined, contains_call
+    f = inlined(repo.func(THEORY, 'Theory.add_term_sig'), contains_call('match', 'match_incr'))[0]     # the matching may sit in a helper of the class
     cfg = cfg_of(f.node)
     flow = flow_of(f.node)
     ov = [n for n in cfg.test_nodes() if isinstance(n.ast, ast.Call) and call_attr(n.ast) == 'is_overload_const']
